@@ -51,3 +51,11 @@ def registry():
                      modifies=['self.payload', 'self._tag_octet'],
                      opaque=['spec.der.tlv_ok', 'spec.der.tlv_size', 'spec.der.tlv_content', 'spec.der.explicit_ok']))
     return reg
+
+
+def units(prop, tier):
+    from vf.pyunit import pyvc_unit
+    if prop != 'C13':
+        return []
+    return [pyvc_unit(prop, 'asn1.' + t, registry, [A + t])
+            for t in ['BytesIO_EOF.read', 'BytesIO_EOF.read_byte', 'DerObject._decodeLen', 'DerObject._decodeFromStream', 'DerObject.decode']]
